@@ -30,25 +30,31 @@ type c16Consumer struct {
 	Sizes []int `json:"sizes,omitempty"`
 	// copyn: io.CopyN(dst, r, total source bytes + 1 + Extra) — always beyond the end
 	Extra int64 `json:"extra,omitempty"`
+	// loop: stop after this many Read calls even if no error has come (nil = read to the end);
+	// Close is called all the same
+	Stop *int `json:"stop,omitempty"`
 }
 
 type c16Src struct {
-	Script   sreader.Script `json:"script"`
-	Closable bool           `json:"closable"`
-	WT       bool           `json:"wt,omitempty"` // the source itself is an io.WriterTo
+	Script   xScript `json:"script"`
+	Closable bool    `json:"closable"`
+	WT       bool    `json:"wt,omitempty"`        // the source itself is an io.WriterTo
+	CloseErr bool    `json:"close_err,omitempty"` // its Close returns an error
 }
 
 type c16Input struct {
-	Kind     string         `json:"kind"` // limit | multi | tee | iface
-	N        int64          `json:"n,omitempty"`
-	Script   sreader.Script `json:"script,omitempty"`
-	SrcWT    bool           `json:"src_wt,omitempty"` // limit/tee: the source is also an io.WriterTo
-	Srcs     []c16Src       `json:"srcs,omitempty"`
-	Budget   *int64         `json:"budget,omitempty"`
-	Consumer c16Consumer    `json:"consumer"`
-	Closes   int            `json:"closes,omitempty"` // Close calls after consumption (0 = one)
-	Wrapper  string         `json:"wrapper,omitempty"` // iface: limit | multi | tee
-	Iface    string         `json:"iface,omitempty"`   // iface: e.g. io.WriterTo
+	Kind      string      `json:"kind"` // limit | multi | tee | iface
+	N         int64       `json:"n,omitempty"`
+	Script    xScript     `json:"script,omitempty"`
+	SrcWT     bool        `json:"src_wt,omitempty"`      // limit/tee: the source is also an io.WriterTo
+	CloseErr  bool        `json:"close_err,omitempty"`   // limit/tee: the source's Close returns an error
+	WCloseErr bool        `json:"w_close_err,omitempty"` // tee: the writer's Close returns an error
+	Srcs      []c16Src    `json:"srcs,omitempty"`
+	Budget    *int64      `json:"budget,omitempty"`
+	Consumer  c16Consumer `json:"consumer"`
+	Closes    int         `json:"closes,omitempty"`  // Close calls after consumption (0 = one)
+	Wrapper   string      `json:"wrapper,omitempty"` // iface: limit | multi | tee
+	Iface     string      `json:"iface,omitempty"`   // iface: e.g. io.WriterTo
 }
 
 // ---------------------------------------------------------------------------------------
@@ -56,13 +62,13 @@ type c16Input struct {
 
 // wtReader is a scripted reader that is also an io.WriterTo (like bytes.Reader, os.File): its
 // WriteTo drains the script through its own Read with a small buffer.
-type wtReader struct{ *sreader.Reader }
+type wtReader struct{ *xReader }
 
 func (r wtReader) WriteTo(w io.Writer) (int64, error) {
 	var sum int64
 	buf := make([]byte, 3)
 	for i := 0; i < 100000; i++ {
-		n, err := r.Reader.Read(buf)
+		n, err := r.xReader.Read(buf)
 		if n > 0 {
 			m, werr := w.Write(buf[:n])
 			sum += int64(m)
@@ -82,15 +88,15 @@ func (r wtReader) WriteTo(w io.Writer) (int64, error) {
 
 type wtCloser struct{ wtReader }
 
-func (c wtCloser) Close() error { c.Reader.Closes++; return nil }
+func (c wtCloser) Close() error { return c.xReader.close() }
 
-func c16Source(s sreader.Script, closable, wt bool) (io.Reader, *sreader.Reader) {
-	r := sreader.New(s)
+func c16Source(s xScript, closable, wt, closeErr bool) (io.Reader, *xReader) {
+	r := newXReader(s, closeErr)
 	switch {
 	case closable && wt:
 		return wtCloser{wtReader{r}}, r
 	case closable:
-		return sreader.Closer{Reader: r}, r
+		return xCloser{r}, r
 	case wt:
 		return wtReader{r}, r
 	}
@@ -164,9 +170,10 @@ func sizeAt(sizes []int, i int) int {
 var errWriter = errors.New("scripted writer failure")
 
 type budgetWriter struct {
-	buf    []byte
-	budget *int64
-	closes int
+	buf      []byte
+	budget   *int64
+	closes   int
+	closeErr bool
 }
 
 func (w *budgetWriter) Write(p []byte) (int, error) {
@@ -179,7 +186,13 @@ func (w *budgetWriter) Write(p []byte) (int, error) {
 	w.buf = append(w.buf, p...)
 	return len(p), nil
 }
-func (w *budgetWriter) Close() error { w.closes++; return nil }
+func (w *budgetWriter) Close() error {
+	w.closes++
+	if w.closeErr {
+		return errClose
+	}
+	return nil
+}
 
 const copyBuf = 32 * 1024
 
@@ -195,6 +208,7 @@ type consumed struct {
 	sizes       []int
 	dflt        int
 	viaByteRead bool
+	stopped     bool // the loop consumer stopped by itself (Stop reached, no error seen)
 }
 
 func eofIfNil(err error) error {
@@ -259,7 +273,11 @@ func c16Consume(r io.Reader, c c16Consumer, total int) consumed {
 	default:
 		var out []byte
 		var sizes []int
-		for i := 0; i < 100000; i++ {
+		bound := 100000
+		if c.Stop != nil {
+			bound = *c.Stop
+		}
+		for i := 0; i < bound; i++ {
 			sz := sizeAt(c.Sizes, i)
 			buf := make([]byte, sz)
 			sizes = append(sizes, sz)
@@ -269,26 +287,33 @@ func c16Consume(r io.Reader, c c16Consumer, total int) consumed {
 				return consumed{out: out, err: err, sizes: sizes, dflt: 1}
 			}
 		}
+		if c.Stop != nil {
+			return consumed{out: out, stopped: true, sizes: sizes, dflt: 1}
+		}
 		return consumed{out: out, runaway: true, sizes: sizes, dflt: 1}
 	}
 }
 
 func c16Err(err error) (string, bool) {
+	if c, ok := xErrClass(err); ok { // nil, the io.EOF value, the scripted failures by identity
+		return c, true
+	}
 	switch {
-	case err == nil:
-		return "ENil", true
 	case errors.Is(err, streams.ErrStreamTooLarge):
 		return "ETooLarge", true
-	case err == io.EOF:
-		return "EEOF", true
-	case errors.Is(err, sreader.ErrFail):
-		return "EFail", true
 	case errors.Is(err, io.ErrClosedPipe):
 		return "EClosedPipe", true
 	case errors.Is(err, errWriter):
 		return "EWriter", true
 	}
-	return "EFail", false
+	return "(EFail FPlain)", false
+}
+
+func coqStop(c c16Consumer) string {
+	if c.Kind == "loop" && c.Stop != nil {
+		return "(Some " + hx.CoqZ(int64(*c.Stop)) + ")"
+	}
+	return "None"
 }
 
 // ---------------------------------------------------------------------------------------
@@ -315,7 +340,7 @@ var c16Ifaces = []struct {
 var c16Wrappers = []struct{ name, coq string }{{"limit", "WLimit"}, {"multi", "WMulti"}, {"tee", "WTee"}}
 
 func c16Wrapper(name string) any {
-	src, _ := c16Source(nil, true, false)
+	src, _ := c16Source(nil, true, false, false)
 	switch name {
 	case "limit":
 		return streams.LimitReadCloser(src.(io.ReadCloser), 1)
@@ -377,9 +402,10 @@ func c16Run(ctx *core.Ctx, in c16Input) {
 			ctx.Sink.Count("iface/" + in.Wrapper + " implements " + in.Iface)
 		}
 	case "limit":
-		rd, src := c16Source(in.Script, true, in.SrcWT)
+		rd, src := c16Source(in.Script, true, in.SrcWT, in.CloseErr)
 		l := streams.LimitReadCloser(rd.(io.ReadCloser), in.N)
-		data, eof := in.Script.Data()
+		data, end := in.Script.Data()
+		eof := end == ""
 		res := c16Consume(l, in.Consumer, len(data))
 		cb := src.Closes
 		for i := 0; i < ncl; i++ {
@@ -392,20 +418,21 @@ func c16Run(ctx *core.Ctx, in c16Input) {
 		c.Facts["ends_eof"] = eof
 		c.Facts["last_is_dataeof"] = len(in.Script) > 0 && in.Script[len(in.Script)-1].K == "dataeof"
 		c.Facts["path"] = path(res)
-		c.Class = fmt.Sprintf("limit/N%d/len%d/%s/%s", in.N, len(data), in.Script.Shape(), in.Consumer.Kind)
+		c.Class = fmt.Sprintf("limit/N%d/len%d/%s/%s%s", in.N, len(data), in.Script.Shape(), in.Consumer.Kind, stopTag(in.Consumer))
 		c.Trivial = len(data) == 0
 		c.Observed = map[string]any{"out_len": len(res.out), "err": ec, "closes_before": cb, "closes_after": ca, "path": path(res)}
 		// the model has Read only: a WriteTo/ReadByte the type may have grown must be
 		// indistinguishable from the Read loop io.Copy would otherwise have run
-		c.Coq = fmt.Sprintf("CLimit %s %s %s %s %s %s %s %s %s", hx.CoqZ(in.N), in.Script.Coq(),
-			hx.CoqInts(res.sizes), hx.CoqZ(int64(res.dflt)), hx.CoqZ(int64(ncl)), hx.CoqBytes(res.out), ec,
+		c.Coq = fmt.Sprintf("CLimit %s %s %s %s %s %s %s %s %s %s", hx.CoqZ(in.N), in.Script.Coq(),
+			hx.CoqInts(res.sizes), hx.CoqZ(int64(res.dflt)), coqStop(in.Consumer), hx.CoqZ(int64(ncl)), hx.CoqBytes(res.out), ec,
 			hx.CoqZ(int64(cb)), hx.CoqZ(int64(ca)))
 		if res.runaway || !known {
 			c.Direct, c.Note = 1, fmt.Sprintf("unclassified outcome err=%v runaway=%v", res.err, res.runaway)
 		}
 		ctx.Sink.Count("kind=limit")
-		ctx.Sink.Count("limit/consumer=" + in.Consumer.Kind)
+		ctx.Sink.Count("limit/consumer=" + in.Consumer.Kind + stopTag(in.Consumer))
 		ctx.Sink.Count("limit/path=" + path(res))
+		countSrc(ctx, "limit", end, in.CloseErr, res.stopped)
 		ctx.Sink.Count(fmt.Sprintf("limit/closes=%d", ncl))
 		if over {
 			ctx.Sink.Count("limit/over")
@@ -425,12 +452,12 @@ func c16Run(ctx *core.Ctx, in c16Input) {
 		ctx.Sink.Count("err=" + ec)
 	case "multi":
 		var readers []io.Reader
-		var srcs []*sreader.Reader
+		var srcs []*xReader
 		coqSrcs := make([]string, len(in.Srcs))
 		totalLen := 0
 		shape := ""
 		for i, s := range in.Srcs {
-			rd, r := c16Source(s.Script, s.Closable, s.WT)
+			rd, r := c16Source(s.Script, s.Closable, s.WT, s.CloseErr)
 			srcs = append(srcs, r)
 			readers = append(readers, rd)
 			coqSrcs[i] = fmt.Sprintf("(%s, %s)", s.Script.Coq(), hx.CoqBool(s.Closable))
@@ -439,6 +466,16 @@ func c16Run(ctx *core.Ctx, in c16Input) {
 			shape += s.Script.Shape() + fmt.Sprintf("%v|", s.Closable)
 			if s.WT {
 				ctx.Sink.Count("multi/source is io.WriterTo")
+			}
+			if _, end := s.Script.Data(); end != "" {
+				pos := "last"
+				if i < len(in.Srcs)-1 {
+					pos = "non-last"
+				}
+				ctx.Sink.Count("multi/" + pos + " source ends with " + end)
+			}
+			if s.CloseErr && s.Closable {
+				ctx.Sink.Count(fmt.Sprintf("multi/Close error on source %d of %d", i+1, len(in.Srcs)))
 			}
 		}
 		mr := streams.NewMultiReaderCloser(readers...)
@@ -458,31 +495,43 @@ func c16Run(ctx *core.Ctx, in c16Input) {
 		ec, known := c16Err(res.err)
 		c.Facts["writeto"] = res.viaWriteTo
 		c.Facts["path"] = path(res)
-		c.Class = fmt.Sprintf("multi/%s/%s", shape, in.Consumer.Kind)
+		c.Class = fmt.Sprintf("multi/%s/%s%s", shape, in.Consumer.Kind, stopTag(in.Consumer))
 		c.Trivial = totalLen == 0
 		c.Observed = map[string]any{"out_len": len(res.out), "err": ec, "closes_before": cb, "closes_after": ca, "path": path(res)}
-		c.Coq = fmt.Sprintf("CMulti %s %s %s %s %s %s %s %s %s", hx.CoqList(coqSrcs), hx.CoqBool(res.viaWriteTo),
-			hx.CoqInts(res.sizes), hx.CoqZ(int64(res.dflt)), hx.CoqZ(int64(ncl)), hx.CoqBytes(res.out), ec,
+		c.Coq = fmt.Sprintf("CMulti %s %s %s %s %s %s %s %s %s %s", hx.CoqList(coqSrcs), hx.CoqBool(res.viaWriteTo),
+			hx.CoqInts(res.sizes), hx.CoqZ(int64(res.dflt)), coqStop(in.Consumer), hx.CoqZ(int64(ncl)), hx.CoqBytes(res.out), ec,
 			hx.CoqInts(cb), hx.CoqInts(ca))
 		if res.runaway || !known {
 			c.Direct, c.Note = 1, fmt.Sprintf("unclassified outcome err=%v runaway=%v", res.err, res.runaway)
 		}
 		ctx.Sink.Count("kind=multi")
-		ctx.Sink.Count("multi/consumer=" + in.Consumer.Kind)
+		ctx.Sink.Count("multi/consumer=" + in.Consumer.Kind + stopTag(in.Consumer))
+		if res.stopped {
+			ctx.Sink.Count("multi/consumer stopped early")
+		}
+		{
+			left := 0 // closable sources still unclosed when Close is called
+			for i, n := range cb {
+				if n == 0 && in.Srcs[i].Closable {
+					left++
+				}
+			}
+			ctx.Sink.Count(fmt.Sprintf("multi/unclosed sources at Close=%d", left))
+		}
 		ctx.Sink.Count("multi/path=" + path(res))
 		ctx.Sink.Count(fmt.Sprintf("multi/sources=%d", len(in.Srcs)))
 		ctx.Sink.Count(fmt.Sprintf("multi/closes=%d", ncl))
 		ctx.Sink.Count("err=" + ec)
 	case "tee":
-		rd, src := c16Source(in.Script, true, in.SrcWT)
+		rd, src := c16Source(in.Script, true, in.SrcWT, in.CloseErr)
 		var budget *int64
 		if in.Budget != nil {
 			b := *in.Budget
 			budget = &b
 		}
-		w := &budgetWriter{budget: budget}
+		w := &budgetWriter{budget: budget, closeErr: in.WCloseErr}
 		t := streams.NewTeeReadCloser(rd, w)
-		data, _ := in.Script.Data()
+		data, end := in.Script.Data()
 		res := c16Consume(t, in.Consumer, len(data))
 		for i := 0; i < ncl; i++ {
 			_ = t.Close()
@@ -493,18 +542,19 @@ func c16Run(ctx *core.Ctx, in c16Input) {
 			bs = "(Some " + hx.CoqZ(*in.Budget) + ")"
 		}
 		c.Facts["path"] = path(res)
-		c.Class = fmt.Sprintf("tee/len%d/%s/%s/%s", len(data), in.Script.Shape(), in.Consumer.Kind, bs)
+		c.Class = fmt.Sprintf("tee/len%d/%s/%s%s/%s", len(data), in.Script.Shape(), in.Consumer.Kind, stopTag(in.Consumer), bs)
 		c.Trivial = len(data) == 0
 		c.Observed = map[string]any{"out_len": len(res.out), "err": ec, "written_len": len(w.buf),
 			"src_closes": src.Closes, "w_closes": w.closes, "path": path(res)}
-		c.Coq = fmt.Sprintf("CTee %s %s %s %s %s %s %s %s %s %s", in.Script.Coq(), bs, hx.CoqInts(res.sizes),
-			hx.CoqZ(int64(res.dflt)), hx.CoqZ(int64(ncl)), hx.CoqBytes(res.out), ec, hx.CoqBytes(w.buf),
+		c.Coq = fmt.Sprintf("CTee %s %s %s %s %s %s %s %s %s %s %s", in.Script.Coq(), bs, hx.CoqInts(res.sizes),
+			hx.CoqZ(int64(res.dflt)), coqStop(in.Consumer), hx.CoqZ(int64(ncl)), hx.CoqBytes(res.out), ec, hx.CoqBytes(w.buf),
 			hx.CoqZ(int64(src.Closes)), hx.CoqZ(int64(w.closes)))
 		if res.runaway || !known {
 			c.Direct, c.Note = 1, fmt.Sprintf("unclassified outcome err=%v runaway=%v", res.err, res.runaway)
 		}
 		ctx.Sink.Count("kind=tee")
-		ctx.Sink.Count("tee/consumer=" + in.Consumer.Kind)
+		ctx.Sink.Count("tee/consumer=" + in.Consumer.Kind + stopTag(in.Consumer))
+		countSrc(ctx, "tee", end, in.CloseErr || in.WCloseErr, res.stopped)
 		ctx.Sink.Count("tee/path=" + path(res))
 		ctx.Sink.Count(fmt.Sprintf("tee/closes=%d", ncl))
 		ctx.Sink.Count("err=" + ec)
@@ -514,17 +564,36 @@ func c16Run(ctx *core.Ctx, in c16Input) {
 	ctx.Sink.Add(c)
 }
 
+func stopTag(c c16Consumer) string {
+	if c.Kind == "loop" && c.Stop != nil {
+		return "+stop"
+	}
+	return ""
+}
+
+func countSrc(ctx *core.Ctx, w, end string, closeErr, stopped bool) {
+	if end != "" {
+		ctx.Sink.Count(w + "/source ends with " + end)
+	}
+	if closeErr {
+		ctx.Sink.Count(w + "/Close error")
+	}
+	if stopped {
+		ctx.Sink.Count(w + "/consumer stopped early")
+	}
+}
+
 // zeroOffsets: the data offsets at which the script has a zero-length read.
-func zeroOffsets(s sreader.Script) []int {
+func zeroOffsets(s xScript) []int {
 	var out []int
 	off := 0
 	for _, it := range s {
 		switch it.K {
 		case "zero":
 			out = append(out, off)
-		case "data", "dataeof":
+		case "data":
 			off += len(it.D)
-		case "fail":
+		case "dataeof", "fail", "datafail":
 			return out
 		}
 	}
@@ -542,44 +611,47 @@ func seqBytes(start, n int) []byte {
 // zeroScript: data with nz zero-length reads exactly at offset z (0 <= z <= len(data): z =
 // len(data) puts them between the last byte and the end).  Either side of z is one chunk, or
 // 1-byte chunks.  end: 0 = EOF alone, 1 = EOF with the last data, 2 = one more zero-length read
-// and then EOF alone, 3 = failure.
-func zeroScript(data []byte, z, nz int, oneByte bool, end int) sreader.Script {
-	var s sreader.Script
+// and then EOF alone, 3 = failure of the given kind, 4 = that failure together with the last data.
+const nZeroEnds = 5
+
+func zeroScript(data []byte, z, nz int, oneByte bool, end int, kind string) xScript {
+	var s xScript
 	chunks := func(d []byte) {
 		if len(d) == 0 {
 			return
 		}
 		if !oneByte {
-			s = append(s, sreader.Item{K: "data", D: append([]byte(nil), d...)})
+			s = append(s, xItem{K: "data", D: append([]byte(nil), d...)})
 			return
 		}
 		for _, b := range d {
-			s = append(s, sreader.Item{K: "data", D: []byte{b}})
+			s = append(s, xItem{K: "data", D: []byte{b}})
 		}
 	}
 	chunks(data[:z])
 	for i := 0; i < nz; i++ {
-		s = append(s, sreader.Item{K: "zero"})
+		s = append(s, xItem{K: "zero"})
 	}
 	chunks(data[z:])
 	switch end {
 	case 1:
-		if n := len(s); n > 0 && s[n-1].K == "data" {
-			s[n-1].K = "dataeof"
-		} else {
-			s = append(s, sreader.Item{K: "dataeof"})
-		}
+		s = xStyle{end: 1}.finish(s)
 	case 2:
-		s = append(s, sreader.Item{K: "zero"})
+		s = append(s, xItem{K: "zero"})
 	case 3:
-		s = append(s, sreader.Item{K: "fail"})
+		s = xStyle{end: 2, kind: kind}.finish(s)
+	case 4:
+		s = xStyle{end: 3, kind: kind}.finish(s)
 	}
 	return s
 }
 
-// consumer kinds: the first four are the Read family, the last three hand the BARE wrapper to the
-// io package's copy functions (which look for fast-path methods).
-const nReadKinds = 4
+func anyKind(r *hx.Rand) string { return xKinds[r.Intn(len(xKinds))] }
+
+// consumer kinds: the first five are the Read family (the last of them stops by itself after a
+// few Read calls and then closes), the others hand the BARE wrapper to the io package's copy
+// functions (which look for fast-path methods).
+const nReadKinds = 5
 
 func c16Consumers(r *hx.Rand, n int, byteReader bool) []c16Consumer {
 	rs := func() []int {
@@ -596,8 +668,12 @@ func c16Consumers(r *hx.Rand, n int, byteReader bool) []c16Consumer {
 	case 2:
 		extra = 1 << 20
 	}
+	stop := r.Intn(4) // 0 = Close without a single Read
+	if r.Chance(1, 3) {
+		stop = r.Intn(n + 4)
+	}
 	cs := []c16Consumer{{Kind: "loop", Sizes: rs()}, {Kind: "loop", Sizes: []int{1}}, {Kind: "readall"},
-		{Kind: "copyn", Extra: extra},
+		{Kind: "copyn", Extra: extra}, {Kind: "loop", Sizes: rs(), Stop: &stop},
 		{Kind: "copy"}, {Kind: "copyrf", Sizes: rs()}, {Kind: "copybuf", Sizes: []int{r.Range(1, n+2)}}}
 	if byteReader {
 		cs = append(cs, c16Consumer{Kind: "bytes"})
@@ -646,7 +722,7 @@ func c16Gen(ctx *core.Ctx) {
 			if exhaustive {
 				partsList = sreader.Compositions(data)
 			}
-			for style := 0; style <= 4; style++ {
+			for style := 0; style < nXStyles; style++ {
 				if exhaustive {
 					for _, parts := range partsList {
 						cons := c16Consumers(r, n, brOf["limit"])
@@ -656,16 +732,16 @@ func c16Gen(ctx *core.Ctx) {
 							pick = cons
 						}
 						for _, c := range pick {
-							c16Run(ctx, c16Input{Kind: "limit", N: int64(n), Script: sreader.FromParts(parts, style),
-								Consumer: c, Closes: c16Closes(r), SrcWT: r.Chance(1, 8)})
+							c16Run(ctx, c16Input{Kind: "limit", N: int64(n), Script: xFromParts(parts, xStyleOf(r, style)),
+								Consumer: c, Closes: c16Closes(r), SrcWT: r.Chance(1, 8), CloseErr: r.Chance(1, 6)})
 						}
 					}
 					ctx.Sink.Count("limit/exhaustive_compositions")
 				} else {
 					for k := 0; k < sample; k++ {
 						cons := c16Consumers(r, n, brOf["limit"])
-						c16Run(ctx, c16Input{Kind: "limit", N: int64(n), Script: sreader.Gen(r, data, style, 1+r.Intn(ln)),
-							Consumer: cons[r.Intn(len(cons))], Closes: c16Closes(r), SrcWT: r.Chance(1, 8)})
+						c16Run(ctx, c16Input{Kind: "limit", N: int64(n), Script: xGen(r, data, xStyleOf(r, style), 1+r.Intn(ln)),
+							Consumer: cons[r.Intn(len(cons))], Closes: c16Closes(r), SrcWT: r.Chance(1, 8), CloseErr: r.Chance(1, 6)})
 					}
 				}
 			}
@@ -681,12 +757,12 @@ func c16Gen(ctx *core.Ctx) {
 			}
 			data := seqBytes(n, ln)
 			for z := 0; z <= ln; z++ {
-				ends := []int{0, 1, 2, 3}
+				ends := []int{0, 1, 2, 3, 4}
 				if !ctx.Thorough {
-					// two of the four ends per offset, all four at the limit
+					// two of the five ends per offset, all five at the limit
 					if z != n && z != n+1 {
-						k := r.Intn(4)
-						ends = []int{k, (k + 1 + r.Intn(3)) % 4}
+						k := r.Intn(nZeroEnds)
+						ends = []int{k, (k + 1 + r.Intn(nZeroEnds-1)) % nZeroEnds}
 					}
 				}
 				for _, end := range ends {
@@ -694,7 +770,7 @@ func c16Gen(ctx *core.Ctx) {
 					if r.Chance(1, 4) {
 						nz = 2
 					}
-					script := zeroScript(data, z, nz, r.Chance(1, 3), end)
+					script := zeroScript(data, z, nz, r.Chance(1, 3), end, anyKind(r))
 					cons := c16Consumers(r, n, brOf["limit"])
 					pick := copyAndOne(r, cons)
 					if ctx.Thorough {
@@ -702,7 +778,7 @@ func c16Gen(ctx *core.Ctx) {
 					}
 					for _, c := range pick {
 						c16Run(ctx, c16Input{Kind: "limit", N: int64(n), Script: script, Consumer: c,
-							Closes: c16Closes(r), SrcWT: r.Chance(1, 8)})
+							Closes: c16Closes(r), SrcWT: r.Chance(1, 8), CloseErr: r.Chance(1, 6)})
 					}
 				}
 			}
@@ -717,23 +793,23 @@ func c16Gen(ctx *core.Ctx) {
 		n := r.Range(17, 300)
 		ln := n + r.Range(-3, 3)
 		cons := c16Consumers(r, n, brOf["limit"])
-		var script sreader.Script
+		var script xScript
 		if r.Chance(1, 2) {
 			z := []int{n, n + 1, r.Intn(ln + 1)}[r.Intn(3)]
 			if z > ln {
 				z = ln
 			}
-			script = zeroScript(seqBytes(k, ln), z, 1+r.Intn(2), false, r.Intn(4))
+			script = zeroScript(seqBytes(k, ln), z, 1+r.Intn(2), false, r.Intn(nZeroEnds), anyKind(r))
 		} else {
-			script = sreader.Gen(r, seqBytes(k, ln), r.Intn(5), r.Range(1, ln+1))
+			script = xGen(r, seqBytes(k, ln), xStyleOf(r, r.Intn(nXStyles)), r.Range(1, ln+1))
 		}
 		c16Run(ctx, c16Input{Kind: "limit", N: int64(n), Script: script,
-			Consumer: cons[r.Intn(len(cons))], Closes: c16Closes(r), SrcWT: r.Chance(1, 8)})
+			Consumer: cons[r.Intn(len(cons))], Closes: c16Closes(r), SrcWT: r.Chance(1, 8), CloseErr: r.Chance(1, 6)})
 	}
 	// --- multi: 0..4 sources
-	multi := 420
+	multi := 480
 	if ctx.Thorough {
-		multi = 28000
+		multi = 32000
 	}
 	for k := 0; k < multi; k++ {
 		ns := r.Intn(5)
@@ -741,12 +817,12 @@ func c16Gen(ctx *core.Ctx) {
 		off := 0
 		for i := 0; i < ns; i++ {
 			ln := r.Intn(9)
-			style := r.Intn(5)
-			if style == 3 && !r.Chance(1, 4) {
-				style = 0
+			style := r.Intn(nXStyles)
+			if (style == 3 || style >= 5) && !r.Chance(1, 3) {
+				style = r.Intn(3) // a failing source hides the ones after it: most sources end well
 			}
-			srcs = append(srcs, c16Src{Script: sreader.Gen(r, seqBytes(off, ln), style, 1+r.Intn(ln+1)),
-				Closable: !r.Chance(1, 4), WT: r.Chance(1, 5)})
+			srcs = append(srcs, c16Src{Script: xGen(r, seqBytes(off, ln), xStyleOf(r, style), 1+r.Intn(ln+1)),
+				Closable: !r.Chance(1, 4), WT: r.Chance(1, 5), CloseErr: r.Chance(1, 4)})
 			off += ln
 		}
 		cons := c16Consumers(r, 8, brOf["multi"])
@@ -763,19 +839,19 @@ func c16Gen(ctx *core.Ctx) {
 			for which := 0; which < 2; which++ {
 				lz := []int{la, lb}[which]
 				for z := 0; z <= lz; z++ {
-					for end := 0; end < 4; end++ {
+					for end := 0; end < nZeroEnds; end++ {
 						other := r.Intn(3) // the other source: plain ends only (a failure would hide the rest)
-						a := zeroScript(seqBytes(0, la), 0, 0, r.Chance(1, 2), other)
-						b := zeroScript(seqBytes(la, lb), 0, 0, r.Chance(1, 2), other)
+						a := zeroScript(seqBytes(0, la), 0, 0, r.Chance(1, 2), other, "")
+						b := zeroScript(seqBytes(la, lb), 0, 0, r.Chance(1, 2), other, "")
 						if which == 0 {
-							a = zeroScript(seqBytes(0, la), z, 1+r.Intn(2), r.Chance(1, 2), end)
+							a = zeroScript(seqBytes(0, la), z, 1+r.Intn(2), r.Chance(1, 2), end, anyKind(r))
 						} else {
-							b = zeroScript(seqBytes(la, lb), z, 1+r.Intn(2), r.Chance(1, 2), end)
+							b = zeroScript(seqBytes(la, lb), z, 1+r.Intn(2), r.Chance(1, 2), end, anyKind(r))
 						}
-						srcs := []c16Src{{Script: a, Closable: !r.Chance(1, 4), WT: r.Chance(1, 6)},
-							{Script: b, Closable: !r.Chance(1, 4), WT: r.Chance(1, 6)}}
+						srcs := []c16Src{{Script: a, Closable: !r.Chance(1, 4), WT: r.Chance(1, 6), CloseErr: r.Chance(1, 4)},
+							{Script: b, Closable: !r.Chance(1, 4), WT: r.Chance(1, 6), CloseErr: r.Chance(1, 4)}}
 						if r.Chance(1, 3) {
-							srcs = append(srcs, c16Src{Script: sreader.Gen(r, seqBytes(la+lb, 2), r.Intn(3), 2), Closable: true})
+							srcs = append(srcs, c16Src{Script: xGen(r, seqBytes(la+lb, 2), xStyleOf(r, r.Intn(3)), 2), Closable: true})
 						}
 						cons := c16Consumers(r, 4, brOf["multi"])
 						pick := copyAndOne(r, cons)
@@ -790,10 +866,84 @@ func c16Gen(ctx *core.Ctx) {
 			}
 		}
 	}
+	// multi: error identities x position.  2..4 sources; the source at EVERY position p (non-last
+	// and last) ends with a failure of EVERY identity (plain, wrapping io.EOF, wrapping
+	// io.ErrUnexpectedEOF, bare io.ErrUnexpectedEOF), returned alone or together with its last data;
+	// the other sources end well; every consumer (the Read family and the copy family must agree)
+	for ns := 2; ns <= 4; ns++ {
+		for p := 0; p < ns; p++ {
+			for _, kind := range xKinds {
+				for _, end := range []int{2, 3} {
+					var srcs []c16Src
+					off := 0
+					for i := 0; i < ns; i++ {
+						ln := r.Intn(4)
+						st := xStyleOf(r, []int{0, 1, 2, 4}[r.Intn(4)])
+						if i == p {
+							st = xStyle{zeros: r.Chance(1, 3), end: end, kind: kind}
+							if end == 3 && ln == 0 {
+								ln = 1 + r.Intn(3)
+							}
+						}
+						srcs = append(srcs, c16Src{Script: xGen(r, seqBytes(off, ln), st, 1+r.Intn(ln+1)),
+							Closable: !r.Chance(1, 5), WT: r.Chance(1, 6), CloseErr: r.Chance(1, 4)})
+						off += ln
+					}
+					cons := c16Consumers(r, 4, brOf["multi"])
+					pick := cons
+					if !ctx.Thorough && ns == 4 {
+						pick = copyAndOne(r, cons)
+					}
+					for _, c := range pick {
+						c16Run(ctx, c16Input{Kind: "multi", Srcs: srcs, Consumer: c, Closes: c16Closes(r)})
+					}
+				}
+			}
+		}
+	}
+	// multi: Close errors x unfinished sources.  2..4 closable sources of which at least two are
+	// still open when Close is called - because the consumer stopped after 0..3 Read calls, or
+	// because the source at position p failed mid-stream (through Read and through WriteTo) - and
+	// the Close of EVERY subset of them returns an error (so: of the first remaining one, of a
+	// middle one, of the last, of all); then Close once or twice more
+	for ns := 2; ns <= 4; ns++ {
+		for mask := 1; mask < 1<<ns; mask++ {
+			if !ctx.Thorough && ns == 4 && mask&(mask-1) != 0 && mask != 15 && !r.Chance(1, 4) {
+				continue // quick: with four sources, every single position, all four, and a sample
+			}
+			for scenario := 0; scenario < 3; scenario++ {
+				p := r.Intn(ns - 1) // the failing source in scenarios 1/2: never the last one
+				var srcs []c16Src
+				off := 0
+				for i := 0; i < ns; i++ {
+					ln := 1 + r.Intn(3)
+					st := xStyleOf(r, []int{0, 1, 2, 4}[r.Intn(4)])
+					if scenario > 0 && i == p {
+						st = xStyle{end: 2 + r.Intn(2), kind: anyKind(r)}
+					}
+					srcs = append(srcs, c16Src{Script: xGen(r, seqBytes(off, ln), st, 1+r.Intn(ln+1)),
+						Closable: true, WT: r.Chance(1, 8), CloseErr: mask&(1<<i) != 0})
+					off += ln
+				}
+				cons := c16Consumers(r, 4, brOf["multi"])
+				var c c16Consumer
+				switch scenario {
+				case 0: // early stop
+					stop := r.Intn(3)
+					c = c16Consumer{Kind: "loop", Sizes: []int{1 + r.Intn(2)}, Stop: &stop}
+				case 1: // read error through the Read family
+					c = cons[r.Intn(nReadKinds-1)]
+				default: // read error through the copy family (WriteTo)
+					c = cons[nReadKinds+r.Intn(len(cons)-nReadKinds)]
+				}
+				c16Run(ctx, c16Input{Kind: "multi", Srcs: srcs, Consumer: c, Closes: 1 + r.Intn(3)})
+			}
+		}
+	}
 	// --- tee
-	tee := 420
+	tee := 480
 	if ctx.Thorough {
-		tee = 28000
+		tee = 32000
 	}
 	for k := 0; k < tee; k++ {
 		ln := r.Intn(14)
@@ -803,8 +953,9 @@ func c16Gen(ctx *core.Ctx) {
 			budget = &b
 		}
 		cons := c16Consumers(r, 8, brOf["tee"])
-		c16Run(ctx, c16Input{Kind: "tee", Script: sreader.Gen(r, seqBytes(k, ln), r.Intn(5), 1+r.Intn(ln+1)), Budget: budget,
-			Consumer: cons[k%len(cons)], Closes: c16Closes(r), SrcWT: r.Chance(1, 8)})
+		c16Run(ctx, c16Input{Kind: "tee", Script: xGen(r, seqBytes(k, ln), xStyleOf(r, r.Intn(nXStyles)), 1+r.Intn(ln+1)), Budget: budget,
+			Consumer: cons[k%len(cons)], Closes: c16Closes(r), SrcWT: r.Chance(1, 8),
+			CloseErr: r.Chance(1, 5), WCloseErr: r.Chance(1, 5)})
 	}
 	// tee: a zero-length read at every offset, every end style, the copy family
 	maxLen = 5
@@ -813,13 +964,13 @@ func c16Gen(ctx *core.Ctx) {
 	}
 	for ln := 0; ln <= maxLen; ln++ {
 		for z := 0; z <= ln; z++ {
-			for end := 0; end < 4; end++ {
+			for end := 0; end < nZeroEnds; end++ {
 				var budget *int64
 				if r.Chance(1, 5) {
 					b := int64(r.Intn(3))
 					budget = &b
 				}
-				script := zeroScript(seqBytes(ln, ln), z, 1+r.Intn(2), r.Chance(1, 2), end)
+				script := zeroScript(seqBytes(ln, ln), z, 1+r.Intn(2), r.Chance(1, 2), end, anyKind(r))
 				cons := c16Consumers(r, ln, brOf["tee"])
 				pick := copyAndOne(r, cons)
 				if ctx.Thorough {
@@ -827,7 +978,7 @@ func c16Gen(ctx *core.Ctx) {
 				}
 				for _, c := range pick {
 					c16Run(ctx, c16Input{Kind: "tee", Script: script, Budget: budget, Consumer: c,
-						Closes: c16Closes(r), SrcWT: r.Chance(1, 8)})
+						Closes: c16Closes(r), SrcWT: r.Chance(1, 8), CloseErr: r.Chance(1, 5), WCloseErr: r.Chance(1, 5)})
 				}
 			}
 		}
